@@ -104,3 +104,93 @@ PROPS["C14"] = dict(
              "more than one symbolic window per buffer"],
     assumptions=ENGINE_ASSUMPTIONS + ["str_latin1_up_to: input assumed valid UTF-8 (its &str precondition), expressed with the reference validator"],
 )
+
+
+# ----------------------------------------------------------------------------------------------- C01
+def lead_shards(enc, n):
+    """first-byte ranges: one shard for the non-lead bytes, then the lead range split n ways"""
+    lo, hi = {"Big5": (0x81, 0xFE), "EUC-KR": (0x81, 0xFE), "GBK": (0x81, 0xFE), "gb18030": (0x81, 0xFE),
+              "Shift_JIS": (0x81, 0xFC), "EUC-JP": (0x8E, 0xFE)}[enc]
+    out = [(0, lo - 1)]
+    step = (hi - lo + 1 + n - 1) // n
+    a = lo
+    while a <= hi:
+        out.append((a, min(a + step - 1, hi)))
+        a += step
+    if hi < 0xFF:
+        out.append((hi + 1, 0xFF))
+    return out
+
+
+def c01_jobs(tier, seed):
+    jl = []
+    q = tier == "quick"
+
+    def add(enc, nmin, nmax, sink, repl, lo=0, hi=255, pre=0, need=(9999,), weight=1, **kw):
+        jl.append(J("se_h_c01_decode", {0: E[enc], 1: nmin, 2: nmax, 3: sink, 4: repl, 5: lo, 6: hi, 7: pre},
+                    label="%s n=%d..%d sink=%s repl=%d first=%02X..%02X prefix=%d" % (enc, nmin, nmax, ("utf16", "utf8")[sink], repl, lo, hi, pre),
+                    need=list(need), weight=weight, **kw))
+    has_err = {n: True for n in ENC_NAMES}
+    for n in ("IBM866", "ISO-8859-2", "ISO-8859-4", "ISO-8859-5", "ISO-8859-10", "ISO-8859-13", "ISO-8859-14", "ISO-8859-15",
+              "ISO-8859-16", "KOI8-R", "KOI8-U", "macintosh", "windows-1250", "windows-1251", "windows-1252", "windows-1254",
+              "windows-1256", "windows-1258", "x-mac-cyrillic", "x-user-defined"):
+        has_err[n] = False
+    for i in SINGLE + [E["x-user-defined"], E["replacement"]]:
+        enc = ENC_NAMES[i]
+        need = [9999, 20, 21] if has_err[enc] else [9999, 21]
+        for sink in (0, 1):
+            for repl in (0, 1):
+                add(enc, 0, 2 if q else 3, sink, repl, need=need, weight=1)
+    for enc in ("UTF-8", "UTF-16BE", "UTF-16LE"):
+        for sink in (0, 1):
+            for repl in (0, 1):
+                # sharded by first byte (UTF-8: ASCII / continuation+C0.. / 2-byte leads / 3-byte leads / 4-byte leads and above)
+                ranges = [(0, 0x7F), (0x80, 0xC1), (0xC2, 0xDF), (0xE0, 0xE7), (0xE8, 0xEF), (0xF0, 0xFF)] if enc == "UTF-8" else \
+                         [(0, 0x3F), (0x40, 0x7F), (0x80, 0xBF), (0xC0, 0xFF)]
+                for k, (lo, hi) in enumerate(ranges):
+                    add(enc, 0 if k == 0 else 1, 4 if q else 5, sink, repl, lo, hi, need=[9999], weight=40)
+    for enc in ("Big5", "EUC-KR", "Shift_JIS", "EUC-JP", "GBK", "gb18030"):
+        shards = lead_shards(enc, 16)        # ~8 lead values per job: table facts stay local to the shard
+        for sink in (0, 1):
+            for repl in (0, 1):
+                full = sink == 0 and repl == 0
+                nmax = 3 if (full or not q) else 2
+                if enc in ("GBK", "gb18030") and not q and full:
+                    nmax = 4                 # four-byte forms: ~3 min per shard, thorough tier only
+                if enc == "EUC-JP" and not q:
+                    nmax = 4
+                for (lo, hi) in shards:
+                    add(enc, 0 if lo == 0 else 1, nmax, sink, repl, lo, hi, need=[9999], weight=40 * nmax)
+    # ISO-2022-JP: fully symbolic short streams + every valid / damaged escape as concrete prefix
+    for sink in (0, 1):
+        for repl in (0, 1):
+            full = sink == 0 and repl == 0
+            add("ISO-2022-JP", 0, 3 if (q and not full) else 4, sink, repl, need=[9999, 20, 21], weight=60)
+            for pre in range(1, 15):
+                if q and not full and pre > 5:
+                    continue
+                add("ISO-2022-JP", 0, 3 if (full or not q) else 2, sink, repl, pre=pre, need=[9999], weight=60)
+    for j in jl:
+        j["time_budget"] = 900 if q else 3000
+    return jl
+
+
+PROPS["C01"] = dict(
+    cfgs=["verif_c01"], level="model_checking", jobs=c01_jobs,
+    explanation=("For every encoding the real Decoder (built from /repo, executed symbolically from its LLVM IR through the public API with a "
+                 "worst-case-sized sink and last=true) is run on a stream of N fully symbolic bytes, and its complete output - code units and "
+                 "Malformed(len, after) reports converted to absolute spans - is asserted equal to a line-by-line transcription of the WHATWG "
+                 "decoder algorithm of that encoding run on the same symbolic bytes (index data regenerated from tests/test_data). With "
+                 "replacement: one U+FFFD per error and had_errors <=> some error. z3 decides every branch and every assertion per path."),
+    bounds=lambda tier: ("complete streams (one call sequence, last=true) of N symbolic bytes: single-byte/x-user-defined/replacement N<=%d; UTF-8, UTF-16LE/BE N<=%d; "
+                         "Big5, EUC-KR, Shift_JIS N<=3 (quick: N<=2 for the UTF-8 sink and the replacing methods); EUC-JP N<=%d; GBK/gb18030 N<=3 "
+                         "(quick: 2 for UTF-8 sink/replacing; thorough: N<=4 for the UTF-16 sink without replacement, i.e. all four-byte forms); ISO-2022-JP N<=4 fully symbolic plus 14 concrete escape prefixes (valid, truncated, "
+                         "doubled, with pending lead) followed by <=3 symbolic bytes; both sinks (UTF-16, UTF-8), with and without replacement; "
+                         "sharded by first-byte range" % ((2, 4, 3) if tier == "quick" else (3, 5, 4))),
+    outside=["streams longer than N bytes", "content of the 28 single-byte index tables and of the gb18030 ranges table (trusted data: no second copy offline)",
+             "BOM handling (C10)", "chunked input (C02)"],
+    assumptions=ENGINE_ASSUMPTIONS + [
+        "reference decoders in /verif/harness/refdec.rs are faithful transcriptions of the Encoding Standard",
+        "reference index tables are regenerated from /repo/tests/test_data/*_in_ref.txt (upstream-generated from indexes.json)",
+        "an error's span is defined as the bytes the erroring step consumed, did not restore and did not use (e.g. an ESC that starts an escape is used)"],
+)
